@@ -26,7 +26,7 @@ Const(n, v) == [i \in 1..n |-> v]
 (* ---- tolerances *)
 TolsReal == IF Level = 1
             THEN {AbsTol(Zero), AbsTol(Q(1, 2)), AbsTol(Q(1, 10)), PctTol(Zero), PctTol(I(50)), PctTol(I(10)), PctTol(Q(1, 100))}
-            ELSE {AbsTol(Zero), AbsTol(Q(1, 2)), AbsTol(Q(1, 10)), AbsTol(I(3)),
+            ELSE {AbsTol(Zero), AbsTol(Q(1, 2)), AbsTol(Q(1, 10)),
                   PctTol(Zero), PctTol(I(50)), PctTol(I(10)), PctTol(Q(1, 100)), PctTol(I(200))}
 TolsCx == IF Level = 1 THEN {AbsTol(Zero), AbsTol(Q(5, 4)), AbsTol(Q(1, 10)), PctTol(Zero), PctTol(I(50)), PctTol(I(10))}
           ELSE {AbsTol(Zero), AbsTol(Q(5, 4)), AbsTol(Q(1, 10)), PctTol(Zero), PctTol(I(50)), PctTol(I(10)), PctTol(Q(1, 100))}
@@ -37,7 +37,8 @@ TolsInf == {AbsTol(Zero), AbsTol(Q(1, 2)), PctTol(I(50)), PctTol(I(1000))}
 TolsRw == IF Level = 1 THEN {AbsTol(Q(1, 10)), PctTol(Q(1, 100))}
           ELSE {AbsTol(Q(1, 10)), PctTol(Q(1, 100)), PctTol(I(5))}
 
-(* ---- samples / failable_evals: every pair of the documented ranges (Level 1 leaves out samples = 4) *)
+(* ---- <<samples, failable_evals>>: Level 2 takes every pair of 1..4 x 0..3 for real scalars in FormulaGrader;
+   Level 1 a selection up to 3 samples that still contains failable < samples, = samples - 1 and >= samples *)
 NF == IF Level = 1 THEN {<<1, 0>>, <<2, 0>>, <<2, 1>>, <<2, 3>>, <<3, 0>>, <<3, 1>>, <<3, 3>>}
       ELSE {<<n, f>> : n \in 1..4, f \in 0..3}
 NFsmall == IF Level = 1 THEN {<<1, 0>>, <<2, 0>>, <<3, 1>>}
@@ -129,7 +130,7 @@ Seeds == (IF "real" \in Parts THEN SeedsReal ELSE {}) \cup (IF "cx" \in Parts TH
 
 \* scripted sample sequences: every sequence for 1-2 samples, patterned ones (repeats, all positions varied) beyond
 Pat3(S) == {<<a, b, a>> : a \in S, b \in S} \cup {<<a, a, b>> : a \in S, b \in S}
-Pat4(S) == {<<a, b, c, a>> : a \in S, b \in S, c \in S}
+Pat4(S) == {<<a, b, a, b>> : a \in S, b \in S} \cup {<<a, a, b, a>> : a \in S, b \in S}
 AllSeq(n, S) == [1..n -> S]
 Scripts(n, S, S3) == IF n <= 2 THEN AllSeq(n, S)
                      ELSE IF n = 3 THEN (IF Level = 1 THEN Pat3(S3) ELSE AllSeq(3, S3))
